@@ -15,7 +15,7 @@ import random
 import sys
 
 from . import seams
-from .kernel import Kernel, SimCancelled, SimKilled, HarnessError
+from .kernel import Kernel, NestKernel, SimCancelled, SimKilled, HarnessError
 
 MEDIA_TYPE = "text/x.cucumber.gherkin+plain"
 
@@ -672,7 +672,10 @@ class Run:
     # ---- execution ----
     def estimate_steps(self, states):
         total = 8
+        self.est_per_task = []
         for ts in states:
+            before = total
+            self.est_per_task.append(0)
             for op in ts.spec["ops"]:
                 if op["op"] == "parse":
                     total += ALONE.parse(op["text"], ts.spec["matchers"][op["m"]] if op.get("m") is not None else None,
@@ -686,6 +689,7 @@ class Run:
                     total += estimate_stream_steps(self, ts, op)
                 else:
                     total += 2
+                self.est_per_task[-1] = total - before
         return total
 
     def execute(self):
@@ -702,8 +706,12 @@ class Run:
             self.states = states
             est = self.estimate_steps(states)  # fills the reference cache before anything is in flight
             if use_kernel:
-                k = Kernel(policy=cfg.get("policy", "uniform"), rng=random.Random(cfg.get("sched_seed", 0)),
-                           schedule=self.explicit, step_cap=2 * est + 16)
+                if cfg.get("nest") is not None:
+                    # all tasks on one thread, each started inside a yield point of its predecessor (re-entrant caller)
+                    k = NestKernel([1 + (int(r) % max(1, self.est_per_task[j] - 1)) for j, r in enumerate(cfg["nest"]) if j < len(states)], step_cap=2 * est + 16)
+                else:
+                    k = Kernel(policy=cfg.get("policy", "uniform"), rng=random.Random(cfg.get("sched_seed", 0)),
+                               schedule=self.explicit, step_cap=2 * est + 16)
                 self.kernel = env.kernel = k
                 for ts in states:
                     t = k.spawn(ts.body)
